@@ -16,9 +16,14 @@ class Item(object):
 
 
 class Other(object):
+    """falsy (an empty container): its truth value must make no difference to the registry"""
+
     def __init__(self, label):
         self.serial = next(_serial)
         self.label = label
+
+    def __len__(self):
+        return 0
 
     def who(self):
         CALLS.append((self.serial, "who"))
